@@ -65,6 +65,9 @@ func (o OType) node() *model.Node {
 		switch {
 		case i < len(o.Vals) && o.Vals[i] == "obj":
 			kid = model.Obj().Add("inner", model.Scalar("integer", "1"))
+		case i < len(o.Vals) && strings.HasPrefix(o.Vals[i], "obj+"):
+			// a nested object that inherits on its own
+			kid = model.Obj(model.R("allOf", model.Str(strings.TrimPrefix(o.Vals[i], "obj+")))).Add("inner", model.Scalar("integer", "1"))
 		case i < len(o.Vals) && strings.HasPrefix(o.Vals[i], "@"):
 			kid = model.Ref(o.Vals[i])
 		default:
@@ -84,9 +87,10 @@ type keyInfo struct {
 }
 
 type merger struct {
-	ts    map[string]OType
-	memo  map[string][]keyInfo
-	codes map[int]bool
+	ts     map[string]OType
+	memo   map[string][]keyInfo
+	codes  map[int]bool
+	nested map[string][]string // "type.key" -> expected key list of a nested inheriting object
 }
 
 func normAP(s string) string {
@@ -127,6 +131,33 @@ func (m *merger) merge(name string, stack map[string]bool) []keyInfo {
 		out = append(out, keyInfo{k, "", i < len(o.Opt) && o.Opt[i]})
 	}
 	stack[name] = true
+	// nested objects with their own allOf are separate inheriting objects
+	for i, k := range o.Keys {
+		if i < len(o.Vals) && strings.HasPrefix(o.Vals[i], "obj+") {
+			p := strings.TrimPrefix(o.Vals[i], "obj+")
+			keys := []string{"inner"}
+			pt, ok := m.ts[p]
+			switch {
+			case !ok || pt.Withheld:
+				m.codes[1302] = true
+			case stack[p]:
+				m.codes[703] = true
+			case pt.NonObj:
+				m.codes[704] = true
+			default:
+				for _, s := range m.merge(p, stack) {
+					if s.key == "inner" {
+						m.codes[402] = true
+					}
+					keys = append(keys, s.key)
+				}
+			}
+			if m.nested == nil {
+				m.nested = map[string][]string{}
+			}
+			m.nested[name+"."+k] = keys
+		}
+	}
 	ap := o.AP
 	for _, p := range o.AllOf {
 		pt, ok := m.ts[p]
@@ -349,6 +380,19 @@ func oracle(c Case) *ev.Verdict {
 	if strings.Join(exObj.Keys, ",") != strings.Join(wantKeys, ",") {
 		return ev.V("example:keys", "Example() keys %v, expected own + inherited %v\n%s", exObj.Keys, wantKeys, tp)
 	}
+	for i, k := range ts[inheriting].Keys {
+		if i < len(ts[inheriting].Vals) && strings.HasPrefix(ts[inheriting].Vals[i], "obj+") {
+			sub := exObj.Get(k)
+			wantN := m.nested[inheriting+"."+k]
+			if sub == nil || sub.Kind != jsonv.Object || strings.Join(sub.Keys, ",") != strings.Join(wantN, ",") {
+				got := "<missing>"
+				if sub != nil {
+					got = sub.Canon()
+				}
+				return ev.V("example:nested-keys", "the nested object %q inherits on its own: Example() has %s, expected keys %v\n%s", k, got, wantN, tp)
+			}
+		}
+	}
 	if c.Wrap == 0 && strings.Join(infos, ",") != strings.Join(wantInfos, ",") {
 		return ev.V("openapi:properties", "PropertiesInfos() = %v, expected %v\n%s", infos, wantInfos, tp)
 	}
@@ -411,6 +455,8 @@ func genCase(t *rapid.T) Case {
 				v = "obj"
 			case 1:
 				v = rapid.SampledFrom(names[1:]).Draw(t, nm+"valref")
+			case 2, 3:
+				v = "obj+" + rapid.SampledFrom(names[1:]).Draw(t, nm+"valnested")
 			}
 			o.Vals = append(o.Vals, v)
 		}
